@@ -139,7 +139,7 @@ def parse_fields(raw):
 
 def run_H(ctx, drv, model, hist):
     """hist: list of (conv, [bytes]) -> list of dicts R, RES, F, M, MRES (lists), flag"""
-    l1 = ["H %d %s" % (1 if c else 0, ",".join(pc.hx(s) for s in ins)) for c, ins in hist]
+    l1 = ["H %d %s" % (1 if c else 0, ",".join(pc.hx(s) or "-" for s in ins)) for c, ins in hist]
     mod = ctx.run_lines(model, l1, timeout=1800)
     l2 = []
     for l, m in zip(l1, mod):
@@ -275,7 +275,7 @@ def explore(ctx, drv, model, hist, search=False):
 
 
 def explore_sbml(ctx, drv, hist):
-    lines = ["B " + ",".join(pc.hx(s) for s in ins) for ins in hist]
+    lines = ["B " + ",".join(pc.hx(s) or "-" for s in ins) for ins in hist]
     out = ctx.run_lines(drv, lines, timeout=3000, shards=16)
     ctx.cov["evaluations"] += sum(len(ins) for ins in hist)
     for ins, o in zip(hist, out):
@@ -301,7 +301,7 @@ def replay(ctx, rep):
     r = rep["replay"]
     ins = [pc.unhx(h) for h in r["inputs"]]
     if r.get("family") == "C18-sbml":
-        print(ctx.run_lines(drv, ["B " + ",".join(r["inputs"])])[0])
+        print(ctx.run_lines(drv, ["B " + ",".join(h or "-" for h in r["inputs"])])[0])
         return
     d = run_H(ctx, drv, model, [(r["conv"], ins)])[0]
     print("inputs :", [pc.show(s) for s in ins], "convert_xor =", r["conv"])
